@@ -26,6 +26,9 @@ def gen(rng, tier, n_quick=60, n_thorough=1500):
     for i in range(4 if tier == "quick" else 40):
         # a strut pinned at both ends that carries no load of its own: with -w it has its weight to carry like every other bar
         cases.append(core.case_from_struct(G.gen_bracket(rng), Weight=(i % 4 != 3), Solve=True, Assemble=True, Error="1e-6", ViaPre=(i % 2 == 1)))
+    # a pin-jointed bar exactly along an axis between two supports that both hold that direction, pushed along its axis at both ends
+    for k in range(2 if tier == "quick" else 8):
+        cases.append(core.case_from_struct(G.gen_tie_between_supports(rng, k), Weight=False, Solve=True, Assemble=True, Error="1e-5", ViaPre=False))
     # a bar with 3, 5, 7, 9 (11, 13 ...) distributed loads, solved with its own weight (one more load on every bar)
     for k in ((3, 5, 7, 9) if tier == "quick" else (3, 5, 7, 9, 11, 13, 5, 6, 12, 17)):
         s = G.gen_beam(rng)
